@@ -24,3 +24,41 @@ Theorem C08_refusal_writes_nothing :
     used s = false ->
     run_docs Toml s (DocRefused p :: ds) n = ({| sink := sink s; used := true |}, Some (VErrDoc n)).
 Proof. exact toml_refusal_writes_nothing. Qed.
+
+(* Which documents are accepted.  On the model of what a TOML output does with
+   a document (toml::Value's Deserialize, then xt's root check; diffed against
+   the implementation on generated documents with planted offences): a document
+   is written if and only if its root is a table and it is clean - no null and
+   no byte array as a value, every integer within i64, the keys of every table
+   strings (a later key may also be a byte array holding UTF-8, as the toml crate
+   reads it) and no key twice in a table. *)
+From XtModel Require Import MsgpackCodecProofs TomlAcceptModel TomlAcceptProofs.
+
+Theorem C08_accepted_iff_clean_table :
+  forall v : mval, toml_verdict v = None <-> is_table v = true /\ clean v = true.
+Proof. exact accepted_iff. Qed.
+
+(* The refusals the property names, each for every document whatever else it
+   holds: a null anywhere (an element of an array or the value of an entry, at
+   any depth), an integer TOML cannot hold anywhere, a root that is not a table;
+   and also a byte array as a value, and a key that no table can have. *)
+Theorem C08_null_anywhere_refused :
+  forall v : mval, has_value is_nil v = true -> toml_verdict v <> None.
+Proof. exact null_anywhere_refused. Qed.
+
+Theorem C08_big_integer_anywhere_refused :
+  forall v : mval, has_value is_big v = true -> toml_verdict v <> None.
+Proof. exact big_integer_anywhere_refused. Qed.
+
+Theorem C08_non_table_root_refused :
+  forall v : mval, is_table v = false -> toml_verdict v <> None.
+Proof. exact non_table_root_refused. Qed.
+
+Theorem C08_bytes_anywhere_refused :
+  forall v : mval, has_value is_bin v = true -> toml_verdict v <> None.
+Proof. exact bytes_anywhere_refused. Qed.
+
+Theorem C08_bad_key_refused :
+  forall (kvs : list (mval * mval)) (k x : mval),
+    In (k, x) kvs -> (forall b, key_string b k = None) -> toml_verdict (VMap kvs) <> None.
+Proof. exact bad_key_refused. Qed.
